@@ -1143,6 +1143,12 @@ func runCalls(t *testing.T, seg *Segment, progress *atomic.Int64) {
 					rt.Start(tok, 0)
 					var keep []retained
 					for i := range p.calls {
+						if seg.GCPct > 0 {
+							x := splitmix{s: seg.Seed ^ uint64(tok)<<20 ^ uint64(i)*0x9e3779b97f4a7c15 ^ 0x6c}
+							if int(x.next()%100) < seg.GCPct {
+								runtime.GC() // whatever only lives in weak caches or finalizers goes now
+							}
+						}
 						rt.Park(rt.KCallBegin, 0, uint64(i))
 						if p.setup {
 							// build and publish a shared barcode
